@@ -1,0 +1,124 @@
+//! `DB` inspection methods for the external verification harness (cargo feature `verif`).
+
+use std::sync::atomic::Ordering;
+use std::sync::Arc;
+use std::time::{Duration, Instant};
+
+use crate::config::MAX_NUM_LEVELS;
+use crate::errors::RainDBError;
+use crate::key::InternalKey;
+use crate::tables::Table;
+use crate::verif::{ikey_tuple, Entry, FileDump, StateDump};
+use crate::{RainDbIterator, ReadOptions};
+
+use super::DB;
+
+fn drain_iterator(
+    mut iter: Box<dyn RainDbIterator<Key = InternalKey, Error = RainDBError>>,
+) -> Result<Vec<Entry>, String> {
+    let mut entries = vec![];
+    iter.seek_to_first().map_err(|e| e.to_string())?;
+    while iter.is_valid() {
+        let (key, value) = iter.current().unwrap();
+        let (user_key, seq, op) = ikey_tuple(key);
+        entries.push((user_key, seq, op, value.clone()));
+        iter.next();
+    }
+    Ok(entries)
+}
+
+impl DB {
+    /// Structured dump of the in-memory database state, taken under the database mutex.
+    pub fn verif_state(&self) -> StateDump {
+        let guard = self.guarded_fields.lock();
+        let mem = drain_iterator(self.memtable().iter()).unwrap_or_default();
+        let imm = guard
+            .maybe_immutable_memtable
+            .as_ref()
+            .map(|memtable| drain_iterator(memtable.iter()).unwrap_or_default());
+        let current = guard.version_set.get_current_version();
+        let mut levels = vec![];
+        {
+            let version = current.read();
+            for level in 0..MAX_NUM_LEVELS {
+                levels.push(
+                    version.element.files[level]
+                        .iter()
+                        .map(|file| FileDump {
+                            number: file.file_number(),
+                            size: file.get_file_size(),
+                            smallest: ikey_tuple(file.smallest_key()),
+                            largest: ikey_tuple(file.largest_key()),
+                            allowed_seeks: file.allowed_seeks(),
+                        })
+                        .collect(),
+                );
+            }
+        }
+        drop(current);
+        let (versions, version_refcounts) = guard.version_set.verif_versions();
+        let mut tables_in_use: Vec<u64> = guard.tables_in_use.iter().copied().collect();
+        tables_in_use.sort_unstable();
+        StateDump {
+            last_sequence: guard.version_set.get_prev_sequence_number(),
+            mem,
+            imm,
+            levels,
+            versions,
+            version_refcounts,
+            tables_in_use,
+            snapshots: guard.snapshots.verif_sequence_numbers(),
+            wal_number: guard.curr_wal_file_number,
+            prev_wal_number: guard.version_set.maybe_prev_wal_number(),
+            manifest_number: guard.version_set.get_manifest_file_number(),
+            next_file_number: guard.version_set.verif_next_file_number(),
+            background_scheduled: guard.background_compaction_scheduled,
+            has_immutable_flag: self.has_immutable_memtable.load(Ordering::Acquire),
+            bad_state: guard
+                .maybe_bad_database_state
+                .as_ref()
+                .map(|err| err.to_string()),
+            writer_queue_len: guard.writer_queue.len(),
+            manual_compaction_pending: guard.maybe_manual_compaction.is_some(),
+        }
+    }
+
+    /// Wait until no background work is scheduled or pending. Returns false on timeout.
+    pub fn verif_wait_idle(&self, timeout: Duration) -> bool {
+        let deadline = Instant::now() + timeout;
+        let mut guard = self.guarded_fields.lock();
+        loop {
+            let busy = guard.background_compaction_scheduled
+                || guard.maybe_immutable_memtable.is_some()
+                || guard.maybe_manual_compaction.is_some();
+            if !busy {
+                return true;
+            }
+            if guard.maybe_bad_database_state.is_some() && !guard.background_compaction_scheduled {
+                // Nothing will make progress any more; the caller inspects `bad_state`.
+                return true;
+            }
+            let now = Instant::now();
+            if now >= deadline {
+                return false;
+            }
+            let step = std::cmp::min(deadline - now, Duration::from_millis(20));
+            self.background_work_finished_signal
+                .wait_for(&mut guard, step);
+        }
+    }
+
+    /// Every entry stored in the table file with the given number, in file order.
+    pub fn verif_table_entries(&self, file_number: u64) -> Result<Vec<Entry>, String> {
+        let table = self
+            .table_cache
+            .find_table(file_number)
+            .map_err(|e| e.to_string())?;
+        let read_options = ReadOptions {
+            fill_cache: false,
+            snapshot: None,
+        };
+        let iter = Table::iter_with(Arc::clone(&table), read_options);
+        drain_iterator(Box::new(iter))
+    }
+}
